@@ -53,6 +53,8 @@ class PathState(object):
         self.conds = []      # (expr AST substituted, polarity, stmt)
         self.events = []     # (call expr AST substituted, stmt)
         self.counts = {}     # name -> number of augmented assignments along the path
+        self.cond_pos = []   # position (step index) of each entry of conds
+        self.event_pos = []  # position (step index) of each entry of events
 
 
 def _sub(e, env):
@@ -67,6 +69,7 @@ def symexec(path, skip_first=False):
         node, st = step.node, step.node.ast
         if st is None or (skip_first and i == 0):
             continue
+        n_c, n_e = len(ps.conds), len(ps.events)
         if node.kind == 'stmt':
             if isinstance(st, ast.Assign):
                 v = _sub(st.value, ps.env)
@@ -110,8 +113,13 @@ def symexec(path, skip_first=False):
                 ps.conds.append((_sub(st.test, ps.env), step.label == 'iter', st))
         elif node.kind == 'return':
             if st.value is not None:
+                for c in ast.walk(st.value):
+                    if isinstance(c, ast.Call):
+                        ps.events.append((_sub(c, ps.env), st))
                 ps.events.append((ast.Call(func=ast.Name(id='__return__', ctx=ast.Load()),
                                            args=[_sub(st.value, ps.env)], keywords=[]), st))
+        ps.cond_pos += [i] * (len(ps.conds) - n_c)
+        ps.event_pos += [i] * (len(ps.events) - n_e)
     return ps
 
 
